@@ -251,6 +251,7 @@ func (p *Path) clone() *Path {
 	}
 	q.trace = append([]string(nil), p.trace...)
 	q.bases = append([]string(nil), p.bases...)
+	q.held = append([]string(nil), p.held...)
 	if p.fnret != nil {
 		q.fnret = map[string]Val{}
 		for k, v := range p.fnret {
@@ -465,8 +466,50 @@ func (c *FnCtx) sel(h *HeapView, key, srt string, ptr Val) string {
 	return fmt.Sprintf("(select %s %s)", arr, ptr.T)
 }
 
+// closedAxiom: the entry heap is closed under allocation, stated once per reference-valued heap key as a
+// quantified fact with the load as its pattern (needed when contract clauses read through several pointers).
+func (c *FnCtx) closedAxiom(key string) {
+	if c.declared["closed:"+key] || strings.HasPrefix(key, "cell:") || strings.HasPrefix(key, "$") {
+		return
+	}
+	c.declared["closed:"+key] = true
+	e0 := c.entryArray(key, "Int")
+	al := sym("H0 $alloc")
+	c.declare(al, "(Array Int Bool)")
+	if strings.HasPrefix(key, "[]") || (strings.HasPrefix(key, "map[") && !strings.HasSuffix(key, "#len")) {
+		ks := "Int"
+		if strings.HasPrefix(key, "map[string]") {
+			ks = "String"
+		}
+		c.decls = append(c.decls, fmt.Sprintf("(assert (forall ((cx Int) (ci %s)) (! (or (<= (select (select %s cx) ci) 1) (select %s (select (select %s cx) ci))) :pattern ((select (select %s cx) ci)))))", ks, e0, al, e0, e0))
+		return
+	}
+	c.decls = append(c.decls, fmt.Sprintf("(assert (forall ((cx Int)) (! (or (<= (select %s cx) 1) (select %s (select %s cx))) :pattern ((select %s cx)))))", e0, al, e0, e0))
+}
+
+func refLeaf(l leaf) bool {
+	if l.Sort != "Int" {
+		return false
+	}
+	switch {
+	case strings.HasSuffix(l.Path, "#base") || strings.HasSuffix(l.Path, "#ival"):
+		return true
+	case strings.HasSuffix(l.Path, "#len") || strings.HasSuffix(l.Path, "#cap") || strings.HasSuffix(l.Path, "#tag"):
+		return false
+	}
+	k := kindOf(l.Typ)
+	return k == KPtr || k == KMap
+}
+
 func (c *FnCtx) load(p *Path, h *HeapView, ptr Val, t types.Type) Val {
 	base := c.addrKey(ptr)
+	if base != "array" {
+		for _, l := range leavesOf(t) {
+			if refLeaf(l) {
+				c.closedAxiom(base + l.Path)
+			}
+		}
+	}
 	v := valFromLeaves(t, func(path, srt string) string { return c.sel(h, base+path, srt, ptr) })
 	if v.K == KSlice && h == &p.heap {
 		p.noteBase(v.T)
@@ -1088,10 +1131,37 @@ func (c *FnCtx) execSimple(p *Path, ins ssa.Instruction) {
 	case *ssa.Slice:
 		c.sliceOp(p, x)
 	case *ssa.Range:
-		fr.regs[x] = Val{K: KOpaque, T: c.fresh("range", "Int"), Typ: x.Type()}
+		mv := c.val(p, x.X)
+		it := Val{K: KOpaque, T: c.fresh("range", "Int"), Typ: x.Type()}
+		if mv.K == KMap {
+			it.DynV = &mv
+			it.Dyn = x.X.Type()
+		}
+		fr.regs[x] = it
 	case *ssa.Next:
-		c.note("range over map/string in " + fr.fn.Name() + ": iteration abstracted (havoc)")
-		fr.regs[x] = c.symbolic(p, x.Name(), x.Type())
+		it := c.val(p, x.Iter)
+		r := c.symbolic(p, x.Name(), x.Type())
+		if it.DynV != nil && it.DynV.K == KMap && r.K == KTuple && len(r.Fs) == 3 {
+			// map iteration: each step yields some present entry (order and coverage are abstracted: the loop
+			// is cut by its invariant like any other)
+			mt := it.Dyn.Underlying().(*types.Map)
+			m := *it.DynV
+			base := typeKey(mt)
+			kt := r.Fs[1].T
+			pa := c.heapGet(&p.heap, base+"#present", "Bool")
+			present := fmt.Sprintf("(and (not (= %s 0)) (select (select %s %s) %s))", m.T, pa, m.T, kt)
+			p.assume(fmt.Sprintf("(=> %s %s)", r.Fs[0].T, present))
+			v := valFromLeaves(mt.Elem(), func(path, srt string) string {
+				arr := c.heapGet(&p.heap, base+"#val"+path, srt)
+				return fmt.Sprintf("(select (select %s %s) %s)", arr, m.T, kt)
+			})
+			c.assumeRanges(p, v, mt.Elem())
+			r.Fs[2] = v
+			c.note("range over map in " + fr.fn.Name() + ": each step yields an arbitrary present entry (coverage of all entries is not modelled)")
+		} else {
+			c.note("range over string in " + fr.fn.Name() + ": iteration abstracted (havoc)")
+		}
+		fr.regs[x] = r
 	case *ssa.Select, *ssa.Send, *ssa.MakeChan:
 		c.note("channel operation in " + fr.fn.Name() + ": outside subset, result havocked")
 		if v, ok := ins.(ssa.Value); ok {
